@@ -45,7 +45,12 @@ func (t *templated) Apply(mod *sysl.Module, appNames ...string) map[string]*sysl
 	logrus.Tracef("Apply evalRes: %s", evalRes.String())
 
 	fn := func(v *sysl.Value) (filename string, data string, err error) {
-		valMap := v.GetMap().Items["apps"].GetSet().Value[0].GetMap().Items["app"].GetMap()
+		// the view may return anything; only (apps: {(app: (Filename: .., Data: ..))}) is a template result
+		apps := v.GetMap().GetItems()["apps"].GetSet().GetValue()
+		if len(apps) == 0 {
+			return "", "", fmt.Errorf("incorrect return type")
+		}
+		valMap := apps[0].GetMap().GetItems()["app"].GetMap()
 		if valMap == nil {
 			return "", "", fmt.Errorf("incorrect return type")
 		}
